@@ -1,10 +1,11 @@
 CONSTANTS
-  Family = "access"
-  MaxDepth = 2
-  SampleSize = 2500
+  Family = "logic"
+  MaxDepth = 3
+  SampleSize = 1200
   NegUnionFlipsEach = FALSE
   NegNestedUnionFlips = FALSE
   FalsyObjs = {}
   OperandTruthFilter = FALSE
 SPECIFICATION Spec
-CONSTRAINT Emit
+INVARIANT EngineSound
+INVARIANT RefSane
